@@ -195,7 +195,9 @@ func i64(n int) sqlref.Value { return int64(n) }
 // Universe is the row universe contents are drawn from: keys on the same and on
 // different tables, a value (k=1, v='a', u='b') present on two shards, NULLs, the string
 // 'NULL', separator-collision strings for generateMapKey ('a+','b' vs 'a','+b'), negative
-// and decimal numbers, and a second row on key #1.
+// and decimal numbers, a second row on key #1, and three rows whose k is NULL (keys #4, #8
+// on one table of most layouts, #1 on another) but which differ in id / v / u, so that a
+// NULL in a leading ORDER BY key must fall through to the later keys.
 var Universe = []Row{
 	{1, i64(1), "a", "b", sqlref.D("1.50")},
 	{2, i64(1), "a", "b", sqlref.D("2.25")},
@@ -204,8 +206,8 @@ var Universe = []Row{
 	{5, i64(-1), "NULL", "b", sqlref.D("0.75")},
 	{6, i64(2), "a+", "b", sqlref.D("10.00")},
 	{7, i64(0), "a", "+b", sqlref.D("1.50")},
-	{8, i64(1), "+", "a", nil},
-	{1, i64(2), "b", "a", sqlref.D("2.25")},
+	{8, nil, "+", "a", nil},
+	{1, nil, "b", "a", sqlref.D("2.25")},
 	{4, i64(-1), "NULL", nil, sqlref.D("-0.50")},
 }
 
@@ -307,7 +309,7 @@ func (r *Rig) NewStore(rows []Row) (*Store, error) {
 		if _, err := sd.Get(db, "g"); err == nil {
 			return
 		}
-		sd.Add(&sqlref.Table{DB: db, Name: "g", Cols: gCols(), Rows: ug.Rows})
+		sd.Add(&sqlref.Table{DB: db, Name: "g", Cols: gCols(), Rows: append(make([][]sqlref.Value, 0, len(ug.Rows)), ug.Rows...)})
 	}
 	for _, idx := range r.Rule.GetSubTableIndexes() {
 		slice, db, _ := r.Where(idx)
